@@ -157,6 +157,18 @@ pub fn run(ctx: &Ctx) {
             }
         }
     }
+    // the longest parameter lists with the largest one-time keys that still fit a signature
+    // (8 levels of W1 for the truncated hashes; for n = 32 that list is the siglen known finding)
+    for h in ALL_HASHES {
+        if h.n() < 32 {
+            grid.push(KeyCase { hash: h, levels: vec![(1, 2); 8], seed: SeedSpec::Random(88), seed_array_tail: None });
+            let mut l = vec![(1u32, 2u32); 7];
+            l.insert(3, (8, 2));
+            grid.push(KeyCase { hash: h, levels: l, seed: SeedSpec::Random(87), seed_array_tail: None });
+        } else {
+            grid.push(KeyCase { hash: h, levels: vec![(1, 2); 7], seed: SeedSpec::Random(86), seed_array_tail: None });
+        }
+    }
     ctx.enumerate("grid", grid.len() as u64, true, |i| grid[i as usize].clone(), check_keys);
     // child derivation below every region of a tall parent tree (leaf index bytes 0 and 1)
     let mut ch: Vec<ChildCase> = Vec::new();
